@@ -38,9 +38,23 @@ func runCheck(P *Program, verif, prop, tier string, seed int, verbose bool, t0 t
 	notes := map[string]bool{}
 	var fnames []string
 	modes := map[string]string{}
+	base := loadBaseline(filepath.Join(verif, "baseline", prop+".json"))
+	var undecidedFns []*FuncResult
 	for _, r := range results {
 		if r.Err != "" {
-			engineErrs = append(engineErrs, r.Key+": "+r.Err)
+			// a function that used to be verified (it has obligations in the committed baseline) can no longer be
+			// translated or its contract no longer applies to it: the property is not established for the changed code
+			inBase := false
+			for _, b := range base {
+				if strings.HasPrefix(b, r.Key+"#") {
+					inBase = true
+				}
+			}
+			if inBase {
+				undecidedFns = append(undecidedFns, r)
+			} else {
+				engineErrs = append(engineErrs, r.Key+": "+r.Err)
+			}
 			continue
 		}
 		fnames = append(fnames, r.Key)
@@ -129,13 +143,30 @@ func runCheck(P *Program, verif, prop, tier string, seed int, verbose bool, t0 t
 	for _, k := range kh {
 		fmt.Println(k)
 	}
+	// functions whose verification conditions can no longer be generated
+	for _, r := range undecidedFns {
+		violations++
+		os.MkdirAll(replayDir, 0o755)
+		path := filepath.Join(replayDir, sanitize(r.Key)+"_not_verifiable.json")
+		rf := &ReplayFile{Property: prop, Obligation: r.Key + "#*", Kind: "not-verifiable", Function: r.Key,
+			Clause: "every obligation of this function in the committed baseline", Answer: "not-generated", SolverOut: firstLines(r.Err, 6)}
+		b, _ := json.MarshalIndent(rf, "", " ")
+		os.WriteFile(path, append(b, '\n'), 0o644)
+		fmt.Printf("VIOLATION property=%s replay=%s obligation=%s#* answer=not-verifiable (%s) no-failing-input-found\n", prop, path, r.Key, firstLines(r.Err, 1))
+	}
 	// baseline: obligations that used to exist but were not generated => UNDECIDED
-	base := loadBaseline(filepath.Join(verif, "baseline", prop+".json"))
 	have := map[string]bool{}
 	for _, o := range obls {
 		have[o.Name] = true
 	}
+	undecFn := map[string]bool{}
+	for _, r := range undecidedFns {
+		undecFn[r.Key] = true
+	}
 	for _, b := range base {
+		if i := strings.Index(b, "#"); i > 0 && undecFn[b[:i]] {
+			continue
+		}
 		if !have[b] {
 			undecided = append(undecided, b)
 			fmt.Printf("UNDECIDED property=%s obligation=%s reason=not-generated\n", prop, b)
@@ -186,6 +217,18 @@ func runCheck(P *Program, verif, prop, tier string, seed int, verbose bool, t0 t
 		for _, o := range obls {
 			fmt.Printf("%-12s %-70s %-8s %-10s %.2fs\n", o.Status, o.Name, o.Answer, o.Solver, o.Secs)
 		}
+	}
+	if writeBaseline {
+		var names []string
+		for _, o := range obls {
+			if !o.ExpectSat && (o.Status == "discharged" || o.KnownHit != "") {
+				names = append(names, o.Name)
+			}
+		}
+		sort.Strings(names)
+		os.MkdirAll(filepath.Join(verif, "baseline"), 0o755)
+		bb, _ := json.MarshalIndent(names, "", " ")
+		os.WriteFile(filepath.Join(verif, "baseline", prop+".json"), append(bb, '\n'), 0o644)
 	}
 	fmt.Printf("property=%s tier=%s functions=%d obligations=%d discharged=%d known=%d violations=%d covers=%d/%d wall=%.1fs\n",
 		prop, tier, len(fnames), nObl, nDis, len(kh), violations, nCoverOK, nCover, time.Since(t0).Seconds())
@@ -389,3 +432,4 @@ func (P *Program) runWitness(kf *KnownFinding) (bool, string) {
 }
 
 var verifDir = "/verif"
+var writeBaseline = false
